@@ -349,12 +349,22 @@ Definition cache_cut (max : Z) (l : pl) (kept : list str) : option pl :=
 Definition untrust_all (l : pl) : pl :=
   map (fun e : str * peer => (fst e, mkPeer (p_seen (snd e)) false (p_incoming (snd e)) (p_retry (snd e)))) l.
 
+(* which peer findOldestUntrustedPeer returns when the oldest untrusted peer is unique
+   (the harness gives the cached peers of such runs distinct LastSeen values) *)
+Fixpoint oldest_victim (m : Z) (l : pl) : option str :=
+  match l with
+  | [] => None
+  | (k, p) :: r => if negb (p_trusted p) && (p_seen p =? m) then Some k else oldest_victim m r
+  end.
+Definition auto_victim (l : pl) : option str :=
+  match oldest_untrusted l with Some m => oldest_victim m l | None => None end.
+
 (* DefaultConnections: AddPeer then setTrusted; any error aborts New *)
 Fixpoint add_defaults (max : Z) (allow : bool) (l : pl) (defaults : list str) (now : Z) : option pl :=
   match defaults with
   | [] => Some l
   | d :: r =>
-      match step max allow l (AddPeer d now None) with
+      match step max allow l (AddPeer d now (auto_victim l)) with
       | (l1, OOk) =>
           match step max allow l1 (SetTrusted d) with
           | (l2, OOk) => add_defaults max allow l2 r now
@@ -364,13 +374,61 @@ Fixpoint add_defaults (max : Z) (allow : bool) (l : pl) (defaults : list str) (n
       end
   end.
 
-Definition start (max : Z) (allow disable : bool) (es : list fentry) (kept defaults : list str) (now : Z) : option pl :=
+(* strings.Split(body, "\n"), whitespace stripped from every line *)
+Definition body_lines (body : str) : list str := map strip (split_on 10 body).
+
+(* parseLocalPeerList (the CustomPeersFile): empty lines and lines starting with
+   '#' are skipped, any other line must be a valid address or the load fails *)
+Fixpoint parse_local (allow : bool) (ls : list str) : option (list str) :=
+  match ls with
+  | [] => Some []
+  | a :: r =>
+      match a with
+      | [] => parse_local allow r
+      | c :: _ =>
+          if c =? 35 then parse_local allow r
+          else match validate_address a allow with
+               | VReject _ => None
+               | VAccept cl => match parse_local allow r with Some xs => Some (cl :: xs) | None => None end
+               end
+      end
+  end.
+
+(* parseRemotePeerList (the downloaded list): localhost is never allowed, invalid lines are skipped *)
+Fixpoint parse_remote (ls : list str) : list str :=
+  match ls with
+  | [] => []
+  | a :: r =>
+      match a with
+      | [] => parse_remote r
+      | _ => match validate_address a false with
+             | VAccept cl => cl :: parse_remote r
+             | VReject _ => parse_remote r
+             end
+      end
+  end.
+
+(* loadCustom: the custom peers are added in file order, as many as fit below Max *)
+Definition load_custom (max : Z) (allow : bool) (l : pl) (custom : option str) (now : Z) : option pl :=
+  match custom with
+  | None => Some l
+  | Some body =>
+      match parse_local allow (body_lines body) with
+      | None => None
+      | Some peers =>
+          let peers' := if 0 <? max then firstn (Z.to_nat (max - plen l)) peers else peers in
+          Some (fold_left (add_peer now) peers' l)
+      end
+  end.
+
+Definition start (max : Z) (allow disable : bool) (es : list fentry) (kept defaults : list str)
+                 (custom : option str) (now : Z) : option pl :=
   match cache_cut max (cache_filter allow (load_file es)) kept with
   | None => None
   | Some l0 =>
       match add_defaults max allow (untrust_all l0) defaults now with
       | None => None
-      | Some l1 => Some (if disable then untrust_all l1 else l1)
+      | Some l1 => load_custom max allow (if disable then untrust_all l1 else l1) custom now
       end
   end.
 
@@ -381,16 +439,18 @@ Definition saved_entries (l : pl) : list fentry :=
 
 Inductive xop :=
 | Op (o : op)
-| Restart (kept defaults : list str) (disable : bool) (now : Z).   (* save(), then pex.New on the same directory *)
+| Restart (kept defaults : list str) (disable : bool) (custom : option str) (now : Z)  (* save(), then pex.New on the same directory *)
+| Download (body : str) (perm : list nat) (now : Z).   (* downloadPeers: AddPeers(parseRemotePeerList(body)) *)
 
 Definition xstep (max : Z) (allow : bool) (l : pl) (x : xop) : pl * out :=
   match x with
   | Op o => step max allow l o
-  | Restart kept defaults disable now =>
-      match start max allow disable (saved_entries l) kept defaults now with
+  | Restart kept defaults disable custom now =>
+      match start max allow disable (saved_entries l) kept defaults custom now with
       | Some l' => (l', ONone)
       | None => (l, OOracle)
       end
+  | Download body perm now => step max allow l (AddPeers (parse_remote (body_lines body)) perm now)
   end.
 Fixpoint xrun (max : Z) (allow : bool) (l : pl) (xs : list xop) : pl :=
   match xs with
